@@ -11,22 +11,35 @@ use std::collections::{BTreeMap, BTreeSet};
 
 type ArcKey = (String, usize, isize, String, isize);
 
-fn state_label(node_label: &str) -> String {
-    // the emitter separates the lines of a label with the two characters '\' 'n'
-    node_label.split("\\n").next().unwrap_or("").to_string()
+/// The state a node label stands for: the created state whose Debug text occurs in the label (longest
+/// match). Independent of how the emitter lays the label out (line order, extra fields).
+fn state_label(node_label: &str, created: &BTreeSet<String>) -> String {
+    created.iter().filter(|c| node_label.contains(c.as_str())).max_by_key(|c| c.len()).cloned().unwrap_or_else(|| node_label.split("\\n").next().unwrap_or("").to_string())
 }
-/// "(x3 = 1)\ncost = -2" -> (3, 1, -2)
-fn parse_edge_label(l: &str) -> Option<(usize, isize, isize)> {
-    let mut parts = l.split("\\n");
-    let a = parts.next()?;
-    let b = parts.next()?;
-    if parts.next().is_some() {
-        return None;
+/// all the integers occurring in an edge label, in order ("(x3 = 1)\ncost = -2" -> [3, 1, -2])
+fn label_integers(l: &str) -> Vec<isize> {
+    let b: Vec<char> = l.chars().collect();
+    let mut out = vec![];
+    let mut i = 0;
+    while i < b.len() {
+        if b[i].is_ascii_digit() {
+            let neg = i > 0 && b[i - 1] == '-';
+            let st = i;
+            while i < b.len() && b[i].is_ascii_digit() {
+                i += 1;
+            }
+            if let Ok(v) = b[st..i].iter().collect::<String>().parse::<isize>() {
+                out.push(if neg { -v } else { v });
+            }
+        } else {
+            i += 1;
+        }
     }
-    let a = a.strip_prefix("(x")?.strip_suffix(')')?;
-    let (var, val) = a.split_once(" = ")?;
-    let cost = b.strip_prefix("cost = ")?;
-    Some((var.parse().ok()?, val.parse().ok()?, cost.parse().ok()?))
+    out
+}
+fn is_subsequence(needle: &[isize], hay: &[isize]) -> bool {
+    let mut it = hay.iter();
+    needle.iter().all(|n| it.any(|h| h == n))
 }
 
 struct Recorded {
@@ -79,9 +92,10 @@ struct Parsed {
     ids: BTreeSet<String>,
     labels: BTreeMap<String, String>,
     terminal: bool,
-    arcs: BTreeMap<ArcKey, usize>,
+    /// drawn edges between diagram nodes: (source state, destination state, integers of the label)
+    arcs: Vec<(String, String, Vec<isize>)>,
 }
-fn analyse(bits: u8, src: &str) -> Result<Parsed, String> {
+fn analyse(bits: u8, src: &str, created: &BTreeSet<String>) -> Result<Parsed, String> {
     let g = dot::parse(src).map_err(|e| format!("not a well-formed DOT graph: {e}"))?;
     if !g.directed {
         return Err("not a digraph".into());
@@ -102,7 +116,7 @@ fn analyse(bits: u8, src: &str) -> Result<Parsed, String> {
                 return Err(format!("node {id} is declared twice"));
             }
             let l = attrs.get("label").ok_or_else(|| format!("node {id} has no label"))?;
-            labels.insert(id.clone(), state_label(l));
+            labels.insert(id.clone(), state_label(l, created));
         }
     }
     for (id, _, has, sub) in g.node_stmts.iter() {
@@ -110,7 +124,7 @@ fn analyse(bits: u8, src: &str) -> Result<Parsed, String> {
             return Err(format!("cluster / bare statement mentions node {id} which is not declared (config bits {bits})"));
         }
     }
-    let mut arcs: BTreeMap<ArcKey, usize> = BTreeMap::new();
+    let mut arcs: Vec<(String, String, Vec<isize>)> = vec![];
     for (a, b, attrs) in g.edges.iter() {
         if b == "terminal" {
             if !terminal {
@@ -125,9 +139,8 @@ fn analyse(bits: u8, src: &str) -> Result<Parsed, String> {
             return Err(format!("edge {a} -> {b}: destination is not declared although its inbound edges are drawn"));
         }
         let l = attrs.get("label").ok_or_else(|| format!("edge {a} -> {b} has no label"))?;
-        let (var, val, cost) = parse_edge_label(l).ok_or_else(|| format!("edge {a} -> {b}: label '{l}' does not carry a decision and a cost"))?;
         let src_label = labels.get(a).cloned().unwrap_or_else(|| format!("?{a}"));
-        arcs.entry((src_label, var, val, labels[b].clone(), cost)).and_modify(|c| *c += 1).or_insert(1);
+        arcs.push((src_label, labels[b].clone(), label_integers(l)));
     }
     Ok(Parsed { ids, labels, terminal, arcs })
 }
@@ -157,7 +170,7 @@ pub fn eval(case: &DdCase, obs: &mut CaseObs) -> Verdict {
     for (bits, r) in out.viz.iter() {
         match r {
             Err(p) => return Verdict::Fail(format!("as_graphviz panicked with configuration bits {bits:06b}: {p}")),
-            Ok(s) => match analyse(*bits, s) {
+            Ok(s) => match analyse(*bits, s, &rec.created) {
                 Ok(p) => {
                     parsed.insert(*bits, p);
                 }
@@ -182,25 +195,26 @@ pub fn eval(case: &DdCase, obs: &mut CaseObs) -> Verdict {
         if !(t.embed_depth && !t.has_irrelevance()) {
             continue; // labels identify nodes only when the state embeds its depth
         }
-        // (4) arcs
-        for (k, c) in p.arcs.iter() {
-            let r = rec.arcs.get(k).copied().unwrap_or(0);
-            if *c > r {
-                return Verdict::Fail(format!("configuration bits {bits:06b}: edge {:?} is drawn {c} time(s) but only {r} such arc(s) were created (decision / cost / end-points do not match any transition or relaxed arc)", k));
+        // (4) arcs: every drawn edge must carry the decision and the cost of an arc that was really created
+        // between those two states (the three numbers must occur in its label, in that order), and every
+        // created arc into a visible node must be drawn
+        let mut remaining = rec.arcs.clone();
+        for (sl, dl, ints) in p.arcs.iter() {
+            let cand = remaining.iter_mut().find(|(k, c)| **c > 0 && &k.0 == sl && &k.3 == dl && is_subsequence(&[k.1 as isize, k.2, k.4], ints));
+            match cand {
+                Some((_, c)) => *c -= 1,
+                None => return Verdict::Fail(format!("configuration bits {bits:06b}: an edge {sl} -> {dl} is drawn with label numbers {:?} but no (remaining) created arc between these states has that decision and cost; created arcs there: {:?}", ints, rec.arcs.iter().filter(|(k, _)| &k.0 == sl && &k.3 == dl).collect::<Vec<_>>())),
             }
         }
         let hidden_labels: BTreeSet<&String> = full.labels.iter().filter(|(id, _)| !p.ids.contains(*id)).map(|(_, l)| l).collect();
-        for (k, r) in rec.arcs.iter() {
-            if hidden_labels.contains(&k.3) {
-                continue; // the destination label also names a hidden node: multiplicity cannot be decided from labels
+        for (k, left) in remaining.iter() {
+            if *left == 0 || hidden_labels.contains(&k.3) {
+                continue; // (a destination label that also names a hidden node: multiplicity cannot be decided from labels)
             }
             if !p.labels.values().any(|l| *l == k.3) {
                 continue;
             }
-            let c = p.arcs.get(k).copied().unwrap_or(0);
-            if c != *r {
-                return Verdict::Fail(format!("configuration bits {bits:06b}: arc {:?} was created {r} time(s) but is drawn {c} time(s)", k));
-            }
+            return Verdict::Fail(format!("configuration bits {bits:06b}: arc {:?} was created {} time(s) but {left} of them are not drawn", k, rec.arcs[k]));
         }
         // (5) nodes
         if matches!(case.dom, DomMode::None) {
